@@ -4,6 +4,7 @@ package main
 
 import (
 	"fmt"
+	"go/constant"
 	"go/token"
 	"go/types"
 	"sort"
@@ -16,7 +17,7 @@ func init() {
 	register(&propDef{
 		ID: "C02",
 		Meta: propMeta{
-			Explanation: "Decides that every registered verifier is wired to live, fail-closed integrity primitives: (R02a) liveness — every digest comparison (hmac.Equal / ConstantTimeCompare, and the tabled string / bytes comparisons of JAR, DEB, legacy timestamps) in code reachable from a verifier sits in a block that is still reachable after inter-procedural propagation of constant nil/bool arguments (a comparison that is only reachable when a parameter is non-nil, while every call site passes nil, is dead code), and each verifier reaches at least the frozen number of live comparison sites and signature primitives; (R02b) fail-closed — from the mismatch edge of each comparison no success return is reachable without crossing the match edge of a comparison in the same function, and the result is never discarded; (R02c) the only switches that may disable a comparison are the skip-digests parameters: no comparison is control-dependent on a package-level boolean or an environment variable; (R02d) signature primitives (rsa/ecdsa verify, PkixVerify, SignerInfo.Verify, SignedData.Verify, OpenPGP, rpmutils.Verify) never have their failure dropped, and a failure reaches a success return only through another primitive (fallback idiom); (R02e) the verify command validates certificate chains unless --no-trust-chain was given, and SignerInfo.Verify checks the messageDigest attribute whenever attributes are present; (R02f) a digest comparison is never made conditional on another comparison's expected value; (R02g) the certificate reported as signer is chosen only under an equality that binds it to the verifying key; (R02h) a verifier loop never skips an entry unverified unless an empty result is refused afterwards, and the JAR manifest parser stores every named section it parsed (last occurrence wins, as in the signature-file check); (R02i) the element whose digest values are compared with the files is the element the XML signature covers (Signature.Reference), not a fresh lookup; (R02j) xmldsig.Verify requires exactly one SignedInfo (or parses the reference from the very element it hashes). (R02o) every success return of csblob.checkPlistHashes behind the decoding of the list lies behind len(CDHashes) == len(the directories' hashes); (R02p) in cmdline/verify.verifyOne no iteration over a signature returns to the loop header without VerifyChain err==nil, other than through X509Signature == nil or NoChain. (R02n) DigestPowershell cuts the line ending in front of the signature block off the digested text only behind a HasSuffix / length test of that line (C11 R11q): a character put in place of the line ending is digested. (R02m) no return that is reached because one call's error is non-nil hands back, as the error, a different call result that was found nil on every way there (one read-and-reasoned exception: an unreachable branch of cmdline/verify.verifyOne). (R02l) DigestPowershell and VerifyPowershell compare a line read by readLine with the begin marker built by detectUtf16 through the same chain of helpers (today: none, plain equality), so the digested text ends where the verifier starts reading the signature. (R02k) no Write into a hash.Hash (directly, or through an io.Writer parameter that receives one at some call site) is given bytes that went through TrimSpace, TrimFunc, Fields or Trim/TrimRight/TrimLeft with a cutset holding a space or a tab: every byte of a digested line counts.",
+			Explanation: "Decides that every registered verifier is wired to live, fail-closed integrity primitives: (R02a) liveness — every digest comparison (hmac.Equal / ConstantTimeCompare, and the tabled string / bytes comparisons of JAR, DEB, legacy timestamps) in code reachable from a verifier sits in a block that is still reachable after inter-procedural propagation of constant nil/bool arguments (a comparison that is only reachable when a parameter is non-nil, while every call site passes nil, is dead code), and each verifier reaches at least the frozen number of live comparison sites and signature primitives; (R02b) fail-closed — from the mismatch edge of each comparison no success return is reachable without crossing the match edge of a comparison in the same function, and the result is never discarded; (R02c) the only switches that may disable a comparison are the skip-digests parameters: no comparison is control-dependent on a package-level boolean or an environment variable; (R02d) signature primitives (rsa/ecdsa verify, PkixVerify, SignerInfo.Verify, SignedData.Verify, OpenPGP, rpmutils.Verify) never have their failure dropped, and a failure reaches a success return only through another primitive (fallback idiom); (R02e) the verify command validates certificate chains unless --no-trust-chain was given, and SignerInfo.Verify checks the messageDigest attribute whenever attributes are present; (R02f) a digest comparison is never made conditional on another comparison's expected value; (R02g) the certificate reported as signer is chosen only under an equality that binds it to the verifying key; (R02h) a verifier loop never skips an entry unverified unless an empty result is refused afterwards, and the JAR manifest parser stores every named section it parsed (last occurrence wins, as in the signature-file check); (R02i) the element whose digest values are compared with the files is the element the XML signature covers (Signature.Reference), not a fresh lookup; (R02j) xmldsig.Verify requires exactly one SignedInfo (or parses the reference from the very element it hashes). (R02s) in lib/fruit/csblob no call of the digest helper whose content may be a blob embedded in the signature (SigBlob.Entitlement / EntitlementDER / RawRequirements, directly or through a table entry) lies behind a nil or empty test of that content: removing a bound blob from the unsigned index is a mismatch, not a skip; (R02r) no call in verifier-reachable code makes a digest comparison of its callee unreachable by a constant boolean (a literal flag, or a boolean field of a parameter-struct literal left at its zero value); (R02o) every success return of csblob.checkPlistHashes behind the decoding of the list lies behind len(CDHashes) == len(the directories' hashes); (R02p) in cmdline/verify.verifyOne no iteration over a signature returns to the loop header without VerifyChain err==nil, other than through X509Signature == nil or NoChain. (R02n) DigestPowershell cuts the line ending in front of the signature block off the digested text only behind a HasSuffix / length test of that line (C11 R11q): a character put in place of the line ending is digested. (R02m) no return that is reached because one call's error is non-nil hands back, as the error, a different call result that was found nil on every way there (one read-and-reasoned exception: an unreachable branch of cmdline/verify.verifyOne). (R02l) DigestPowershell and VerifyPowershell compare a line read by readLine with the begin marker built by detectUtf16 through the same chain of helpers (today: none, plain equality), so the digested text ends where the verifier starts reading the signature. (R02k) no Write into a hash.Hash (directly, or through an io.Writer parameter that receives one at some call site) is given bytes that went through TrimSpace, TrimFunc, Fields or Trim/TrimRight/TrimLeft with a cutset holding a space or a tab: every byte of a digested line counts.",
 			NotDecided:  "that each format's protected byte set is completely covered by what is digested, chain-building semantics of crypto/x509, grafting / appended-content cases; those need the format specifications and concrete bytes.",
 			Assumptions: []string{"constant-time comparisons compare what they are given", "moduleReachAll over-approximates the call graph (interfaces and function values resolved by type)"},
 		},
@@ -326,6 +327,7 @@ func runC02(c *Ctx) {
 		// ---- R02c
 		c02Switches(c, s, key)
 	}
+	c02ConstantSwitchOff(c, all, sites)
 	c.Check(len(sites) >= 25, "R02a", "digest comparison sites", "-", fmt.Sprintf("%d sites in %d verifier-reachable functions", len(sites), len(all)), fmt.Sprintf("only %d digest comparison sites found in verifier-reachable code (27 confirmed by reading)", len(sites)))
 
 	// per-verifier minimum of live comparison sites (A) and signature primitives (B)
@@ -1660,6 +1662,10 @@ func c02VerifiedObject(c *Ctx) {
 // one) but hashes one SignedInfo element; the two must be the same element.
 func c02SignedInfoUnique(c *Ctx) {
 	p := c.P
+	c.Rule("R02s", "the blobs embedded in an Apple signature are held against their code-directory slots whether or not they are present", 1)
+	for _, f := range embeddedBlobsAlwaysChecked(p) {
+		c.Check(f.OK, "R02s", f.Key, f.Pos, "", f.Detail)
+	}
 	c.Rule("R02o", "the signed list of code-directory hashes is accepted only when it has one entry per code directory", 1)
 	for _, f := range plistCoversEveryDirectory(p) {
 		c.Check(f.OK, "R02o", f.Key, f.Pos, "", f.Detail, f.Path...)
@@ -1753,4 +1759,207 @@ func c02SignedInfoUnique(c *Ctx) {
 func isPrimCall(isPrim func(*ssa.Call) (string, bool), c *ssa.Call) bool {
 	_, ok := isPrim(c)
 	return ok
+}
+
+// ------------------------------------------------------------------------------ R02r
+
+// c02SwitchOffExceptions: call sites that pass a constant which turns a digest comparison off, read and reasoned.
+var c02SwitchOffExceptions = map[string]string{}
+
+// c02ConstantSwitchOff (R02r): a digest comparison may be skipped because the user asked for it
+// (--no-digests travels as a variable); no call site in verifier code may skip it with a CONSTANT:
+// with the constant arguments of one call applied to the callee (positional booleans and nils, and
+// the fields of a parameter-struct literal, a field left out being its zero value), every digest
+// comparison and every call towards one that the callee can reach in general stays reachable.
+func c02ConstantSwitchOff(c *Ctx, all map[*ssa.Function]bool, sites []cmpSite) {
+	p := c.P
+	c.Rule("R02r", "no call in verifier code turns a digest comparison off with a constant flag (a literal boolean, or a boolean field of a parameter struct left at its zero value)", 3)
+	hasSite := map[*ssa.Function][]ssa.Instruction{}
+	for _, s := range sites {
+		hasSite[s.fn] = append(hasSite[s.fn], s.instr)
+	}
+	// functions from which a comparison is reached through static calls
+	memo := map[*ssa.Function]int{}
+	var reaches func(f *ssa.Function) bool
+	reaches = func(f *ssa.Function) bool {
+		if v, ok := memo[f]; ok {
+			return v == 1
+		}
+		memo[f] = 0
+		ok := len(hasSite[f]) > 0
+		if !ok {
+			for _, ci := range callsOf(f) {
+				if g := ci.Common().StaticCallee(); g != nil && g.Blocks != nil && all[g] && reaches(g) {
+					ok = true
+					break
+				}
+			}
+		}
+		if ok {
+			memo[f] = 1
+		} else {
+			memo[f] = 2
+		}
+		return ok
+	}
+	var fns []*ssa.Function
+	for f := range all {
+		fns = append(fns, f)
+	}
+	sort.Slice(fns, func(i, j int) bool { return p.FName(fns[i]) < p.FName(fns[j]) })
+	n := 0
+	for _, caller := range fns {
+		cnt := map[string]int{}
+		for _, ci := range callsOf(caller) {
+			F := ci.Common().StaticCallee()
+			if F == nil || F.Blocks == nil || !all[F] || !reaches(F) {
+				continue
+			}
+			// targets in F
+			var targets []ssa.Instruction
+			targets = append(targets, hasSite[F]...)
+			for _, c2 := range callsOf(F) {
+				if g := c2.Common().StaticCallee(); g != nil && g.Blocks != nil && all[g] && g != F && reaches(g) {
+					targets = append(targets, c2)
+				}
+			}
+			if len(targets) == 0 {
+				continue
+			}
+			del := deadEdgesForCall(F, ci)
+			if len(del) == 0 {
+				continue
+			}
+			n++
+			cnt[p.FName(F)]++
+			key := fmt.Sprintf("%s call of %s#%d", p.FName(caller), p.FName(F), cnt[p.FName(F)])
+			plain := reach(F, []*ssa.BasicBlock{F.Blocks[0]}, nil, nil)
+			with := reach(F, []*ssa.BasicBlock{F.Blocks[0]}, del, nil)
+			bad := ""
+			for _, t := range targets {
+				if plain[t.Block().Index] && !with[t.Block().Index] {
+					bad = p.Pos(t.Pos())
+				}
+			}
+			if why, ok := c02SwitchOffExceptions[key]; ok && bad != "" {
+				c.PassTrivial("R02r", key, p.Pos(ci.Pos()), "exception: "+why)
+				continue
+			}
+			c.Check(bad == "", "R02r", key, p.Pos(ci.Pos()), "the constants passed leave every digest comparison reachable",
+				"the constant arguments of this call make a digest comparison of the callee (or the call towards it, at "+bad+") unreachable: for this caller the digests are never compared, whatever the user asked for")
+		}
+	}
+	c.Note("R02r: %d calls with constant arguments into functions that lead to a digest comparison", n)
+}
+
+// deadEdgesForCall: the If edges of F that cannot be taken when F is entered through call: facts
+// on a parameter, or on a field of a parameter struct, whose value at this call is a constant.
+func deadEdgesForCall(F *ssa.Function, call ssa.CallInstruction) map[edge]bool {
+	del := map[edge]bool{}
+	constOf := func(v ssa.Value) (*ssa.Const, bool) {
+		pi, path, ok := inputOf(F, v)
+		if !ok {
+			return nil, false
+		}
+		if len(path) == 0 {
+			if pi < len(call.Common().Args) {
+				k, isK := call.Common().Args[pi].(*ssa.Const)
+				return k, isK
+			}
+			return nil, false
+		}
+		// a struct literal: a field that is stored once holds that value, a field never stored is zero
+		if pi >= len(call.Common().Args) {
+			return nil, false
+		}
+		arg := call.Common().Args[pi]
+		if k, isK := arg.(*ssa.Const); isK && k.Value == nil {
+			// T{}: the zero value of the whole struct
+			return zeroConstOf(v.Type()), true
+		}
+		var lit *ssa.Alloc
+		if l, ok := arg.(*ssa.UnOp); ok && l.Op == token.MUL {
+			lit, _ = l.X.(*ssa.Alloc)
+		} else if a, ok := arg.(*ssa.Alloc); ok {
+			lit = a
+		}
+		if lit == nil || len(path) != 1 || allocEscapes(lit) && arg == ssa.Value(lit) {
+			return nil, false
+		}
+		// the literal must be filled by field stores only (no whole-struct store from elsewhere)
+		nStores := 0
+		var val ssa.Value
+		for _, r := range *lit.Referrers() {
+			switch x := r.(type) {
+			case *ssa.Store:
+				if x.Addr == ssa.Value(lit) {
+					return nil, false
+				}
+			case *ssa.FieldAddr:
+				for _, r2 := range *x.Referrers() {
+					if st, ok := r2.(*ssa.Store); ok && st.Addr == ssa.Value(x) && x.Field == path[0] {
+						nStores++
+						val = st.Val
+					}
+				}
+			}
+		}
+		if nStores == 0 {
+			return zeroConstOf(v.Type()), true
+		}
+		if nStores == 1 {
+			k, isK := val.(*ssa.Const)
+			return k, isK
+		}
+		return nil, false
+	}
+	for _, b := range F.Blocks {
+		ifi, ok := b.Instrs[len(b.Instrs)-1].(*ssa.If)
+		if !ok {
+			continue
+		}
+		for si, truth := range []bool{true, false} {
+			for _, f := range factsOf(ifi.Cond, truth) {
+				k, ok := constOf(f.V)
+				if !ok || k == nil {
+					continue
+				}
+				// flags only: a nil content / key / plist argument says "not supplied", which legitimately
+				// leaves the comparison against it out
+				if _, isB := boolConst(k); !isB {
+					continue
+				}
+				infeasible := false
+				switch f.Kind {
+				case NonNil:
+					infeasible = k.IsNil()
+				case IsNil:
+					infeasible = !k.IsNil() && k.Value == nil
+				case IsTrue:
+					if bv, ok := boolConst(k); ok {
+						infeasible = !bv
+					}
+				case IsFalse:
+					if bv, ok := boolConst(k); ok {
+						infeasible = bv
+					}
+				}
+				if infeasible {
+					del[edge{b.Index, si}] = true
+				}
+			}
+		}
+	}
+	return del
+}
+
+func zeroConstOf(t types.Type) *ssa.Const {
+	if isBool(t) {
+		return ssa.NewConst(constant.MakeBool(false), t)
+	}
+	switch t.Underlying().(type) {
+	case *types.Pointer, *types.Slice, *types.Map, *types.Interface, *types.Signature, *types.Chan:
+		return ssa.NewConst(nil, t)
+	}
+	return nil
 }
